@@ -38,7 +38,7 @@ type c17Input struct {
 }
 
 func c17E2(tier string, o *E2Out) {
-	o.Rule = "E2 (load time): configuration values built from <=2 (thorough 3) tokens of {lit, $A, ${A}, $$A, $$, $${A}, $$$A, ${U}, $} joined by ',', placed in command / environment value / description, with A set in the environment, unset, or defined only in a .env file, with and without disable_env_expansion; oracle = reference expander. Non-trivial = at least one token contains '$'."
+	o.Rule = "E2 (load time): configuration values built from <=2 (thorough 3) tokens of {lit, $A, ${A}, $$A, $$, $${A}, $$$A, ${U}, $} joined by ',', placed in command / environment value / description, with A set in the environment, unset, defined only in a .env file, or in both with different values (the environment wins), with and without disable_env_expansion; oracle = reference expander. Non-trivial = at least one token contains '$'."
 	o.Exhaustive = true
 	dir, _ := os.MkdirTemp("", "vh-c17-")
 	defer os.RemoveAll(dir)
@@ -62,10 +62,10 @@ func c17E2(tier string, o *E2Out) {
 	gen(nil)
 	idx := 0
 	for _, seq := range seqs {
-		for _, vm := range []string{"set", "unset", "dotenv"} {
+		for _, vm := range []string{"set", "unset", "dotenv", "both"} {
 			for _, dis := range []bool{false, true} {
 				for _, val := range []string{"val-a", "pa$$wd", "end$", "${VHU}x"} {
-					if vm == "unset" && val != "val-a" {
+					if (vm == "unset" || vm == "both") && val != "val-a" {
 						continue
 					}
 					if vm == "dotenv" && val != "val-a" && val != "pa$$wd" {
@@ -92,7 +92,7 @@ func c17One(o *E2Out, dir string, seq []int, vm string, dis bool, value string) 
 	switch vm {
 	case "set":
 		val, set = value, true
-	case "dotenv":
+	case "dotenv", "both":
 		val, set = value, true
 	}
 	nontrivial := false
@@ -130,6 +130,11 @@ func c17One(o *E2Out, dir string, seq []int, vm string, dis bool, value string) 
 	case "unset":
 		opts.DisableDotenv(true)
 	case "dotenv":
+		opts.EnvFileNames = []string{envFile}
+	case "both":
+		// defined in the environment and, differently, in the .env file: the environment wins
+		os.WriteFile(envFile, []byte("VHA='from-the-dotenv-file'\n"), 0o644)
+		os.Setenv("VHA", value)
 		opts.EnvFileNames = []string{envFile}
 	}
 	defer os.Unsetenv("VHA")
